@@ -959,11 +959,12 @@ def compares_whole_arrays(body, t, n):
         if '[u8; %d]' % n in ty:
             continue
         o = origin(body, t['args'][i])
-        if 'index' in o.flags or 'subslice' in o.flags:
-            partial = [a for a in o.atoms if a[0] == 'agg' and 'ops::range::Range' in str(a[1]) and not str(a[1]).endswith('RangeFull')]
-            if partial or not any(a[0] == 'agg' and str(a[1]).endswith('RangeFull') for a in o.atoms):
-                return False
-        else:
+        if 'subslice' in o.flags:
+            return False
+        ix = [c for c in o.calls if (c.get('callee') or '').endswith(('ops::index::Index::index', 'ops::index::IndexMut::index_mut'))]
+        if not ix or any(len(c.get('arg_tys', [])) < 2 or not c['arg_tys'][1].endswith('ops::range::RangeFull') for c in ix):
+            return False
+        if not any('[u8; %d]' % n in c['arg_tys'][0] for c in ix):
             return False
     return True
 
